@@ -513,6 +513,34 @@ pub fn run(ctx: &mut Ctx) {
         tamper(ctx, &base, &creds, covered_end, &mut rng, !quick);
     }
     ctx.count_n("sealed-messages", done);
+    // ---- messages as real peers send them (attributes repeating each other's information, error
+    //      responses with their usual attributes, ICE checks, both integrity attributes): sealed ones
+    //      validate, every tampering and every other key fails ----
+    {
+        let mut r2 = ctx.rng("realistic", 0);
+        let reps = ctx.n(16, 160).div_ceil(ctx.nshards).max(1);
+        for variant in 0..REALISTIC_VARIANTS {
+            for _ in 0..reps {
+                let (base, creds) = gen_realistic_message(&mut r2, variant);
+                let rp = ref_parse(&base);
+                if !rp.accepted() || !rp.attrs.iter().any(|a| a.ty == MI || a.ty == MI256) {
+                    check_genuine(ctx, &base, &creds, "realistic-unsealed");
+                    continue;
+                }
+                let Some(covered_end) = check_genuine(ctx, &base, &creds, "sealed-validates") else {
+                    if ref_integrity(&base, &rp.attrs, &creds).all_correct() && !ctx.has_violations() {
+                        ctx.violation("C04", "sealed-validates", "Message::validate_integrity", "realistic-message", || wit(&base, &creds, "sealed-validates"), "Ok".into(), "not Ok".into());
+                    }
+                    continue;
+                };
+                ctx.count("realistic-sealed-messages");
+                other_keys(ctx, &base, &creds, &mut r2);
+                near_miss_hmac_inputs(ctx, &base, &creds);
+                tamper(ctx, &base, &creds, covered_end, &mut r2, !quick);
+            }
+        }
+        ctx.require("realistic-sealed-messages", 40);
+    }
     // ---- partially correct / incorrect integrity, and no integrity at all ----
     let nm = ctx.n(160_000, 2_000_000);
     for i in 0..nm {
